@@ -20,6 +20,7 @@ import re
 import struct
 
 EDIT = 50
+_OPTS = None
 _HD = re.compile(rb"h(\d{1,5})x")
 _BD = re.compile(rb"b(\d{1,5})x")
 
@@ -451,7 +452,10 @@ class Driver:
                     drv.crashed = True
                     drv.trace.append({"k": "raised", "exc": "crash"})
 
-        opts = sansio.make_options()
+        global _OPTS
+        if _OPTS is None:  # options are only read by the layers; building them costs ~1 ms per scenario
+            _OPTS = sansio.make_options()
+        opts = _OPTS
         cinfo = {"peername": ("client", 1234), "sockname": ("127.0.0.1", 8080), "transport_protocol": ad.transport}
         self.h = h = Handler(Master(), None, _Writer(self, "c", cinfo), opts, ProxyMode.parse("regular"))
         self.client = h.client
@@ -523,12 +527,12 @@ class Driver:
             self.flows[f] = flow
         d = self.plan.get(str(n), "pass")
         self.pending_hooks[id(hook)] = n
-        self.trace.append({"k": "hook", "n": n, "f": f, "d": d})
+        ok = d != "kill" or bool(flow.killable)
+        self.trace.append({"k": "hook", "n": n, "f": f, "d": d, "ok": ok})
         if d == "intercept":
             flow.intercept()
-        elif d == "kill":
-            if flow.killable:
-                flow.kill()
+        elif d == "kill" and ok:
+            flow.kill()
 
     def on_hook_return(self, hook):
         n = self.pending_hooks.pop(id(hook), None)
